@@ -3291,7 +3291,13 @@ impl SctpInner {
             }
             let flight = self.flight_size.load(Ordering::Relaxed);
             let queued = self.queued_bytes.load(Ordering::Relaxed);
-            if self.max_buffered_amount == 0 || flight + queued <= self.max_buffered_amount {
+            // DCEP OPEN/ACK are sent from the association task itself (handle_dcep,
+            // handle_cookie_*): parking it here would stop SACK processing, the only
+            // thing that can release the window, and deadlock the association.
+            if is_dcep
+                || self.max_buffered_amount == 0
+                || flight + queued <= self.max_buffered_amount
+            {
                 break;
             }
             self.flow_control_notify.notified().await;
